@@ -41,6 +41,7 @@ type DefDecl struct {
 type Clause struct {
 	E    Expr
 	Src  string
+	Optional bool // "invariant?": dropped (not failed) when it does not type-check or is not inductive
 	Prop []string // property ids this clause serves ("" = all)
 	Line string   // file:line
 }
@@ -428,11 +429,12 @@ func (s *Specs) loadSpecFile(path string) error {
 				}
 				body := strings.TrimSpace(strings.TrimPrefix(strings.TrimSpace(strings.TrimPrefix(rest, f[0])), f[1]))
 				switch f[1] {
-				case "invariant":
+				case "invariant", "invariant?":
 					c, err := mkClause(body)
 					if err != nil {
 						return err
 					}
+					c.Optional = f[1] == "invariant?"
 					ls.Invs = append(ls.Invs, c)
 				case "orderfree":
 					ls.IsOrderFree = true
